@@ -22,6 +22,7 @@ DEVS = [
     {"dev": {"k": "wrong_secret", "slot": 0}},
     {"dev": {"k": "wrong_secret", "slot": 1}},
     {"dev": {"k": "wrong_secret", "slot": 2}},
+    {"dev": {"k": "tamper_extend_minus_c"}}, {"dev": {"k": "tamper_extend_zero"}}, {"dev": {"k": "tamper_shorten"}},
     {"dev": {"k": "challenge_arbitrary"}},
     {"dev": {"k": "subst_disclosed_everywhere"}, "need_disclosed": 1},
     {"dev": {"k": "other_issuer_sig"}},
